@@ -31,6 +31,9 @@ ASYMS = {
                [[0.0123 + 0.0771 * i, 0.9131 - 0.0613 * i, (0.137 * i * i + 0.0411) % 1.0] for i in range(12)], None),
     "half_occ": (["C", "O", "H"], ["C1", "O1", "H1A"], [[0.1231, 0.3117, 0.2713], [0.5533, 0.0791, 0.6127], [0.8419, 0.7277, 0.0911]],
                  [1.0, 0.5, 0.5]),
+    # sites given many cells away from the origin (coordinates between 5 and 15 in magnitude, where SHELX's own "10 + value = fixed
+    # parameter" convention lives - the library writes plain coordinates and must read them back as such)
+    "far": (["C", "O", "N"], ["C1", "O1", "N1"], [[6.1651, -7.2513, 0.3127], [12.5533, 0.0791, -9.3873], [-5.6419, 9.7277, 14.0911]], None),
     "precise": (["C", "N"], ["C1", "N1"], [[0.123456789012, 0.987654321098, 0.555555555555], [1 / 3, 2 / 7, 0.1 + 1e-12]], None),
 }
 
@@ -56,7 +59,7 @@ def variants(row, tier):
     out = [d]
     axes = [
         [("oblique",), ("nonterm",), ("eq_ab",), ("eq_bc",), ("eq_ac",)],
-        [("two_letter",), ("twelve",), ("half_occ",), ("precise",)],
+        [("two_letter",), ("twelve",), ("half_occ",), ("precise",), ("far",)],
         [("from_cif",), ("from_res",), ("from_rich_cif",)],
         [("file",)],
         [(2,)],
